@@ -56,9 +56,18 @@ inductive RDraw where
   | sh (d : Shuffle.Draw)
   deriving Repr, DecidableEq, Inhabited
 
-/-- the module-level generator, as the program sees it: the answers it will give, IN ORDER (one stream: the draws of the
-graph arguments, of the formula and of every transformation of a `-T` chain are threaded through it) -/
-abbrev Rng := List RDraw
+/-- an ordered stream of answers -/
+abbrev Stream := List RDraw
+
+/-- the module-level generator, as the program sees it: the answers it will give, IN ORDER, to the calls made while the
+command line is parsed (`parse`: the graph arguments, materialised by argparse actions) and to the calls made afterwards
+(`later`: ONE stream threaded through `build_formula` and every transformation of the `-T` chain, in order).  Two views
+of one state: `cli()` seeds a second time between the two phases, so the same state answers two different sequences of
+requests -/
+structure Rng where
+  parse : Stream
+  later : Stream
+  deriving Repr, DecidableEq, Inhabited
 
 def gPre : List RDraw → List GRand.Draw
   | .g d :: r => d :: gPre r
@@ -141,7 +150,7 @@ def ofErr : Err → Outcome
 
 /-- a graph sampler (vocabulary `g`) on the stream: it sees the `g` answers at the front, and what it consumed is
 dropped from the stream -/
-def runG {α} (m : GRand.RM α) (ds : Rng) : Except Outcome (α × Rng) :=
+def runG {α} (m : GRand.RM α) (ds : Stream) : Except Outcome (α × Stream) :=
   let p := gPre ds
   match m p with
   | .ok a rest => .ok (a, ds.drop (p.length - rest.length))
@@ -150,7 +159,7 @@ def runG {α} (m : GRand.RM α) (ds : Rng) : Except Outcome (α × Rng) :=
   | .stuck => .error .stuck
 
 /-- a formula sampler (vocabulary `f`) on the stream -/
-def runF {α} (m : Rand.RandM α) (ds : Rng) : Except Outcome (α × Rng) :=
+def runF {α} (m : Rand.RandM α) (ds : Stream) : Except Outcome (α × Stream) :=
   let p := fPre ds
   match m p with
   | .ok (a, rest) => .ok (a, ds.drop (p.length - rest.length))
@@ -158,7 +167,7 @@ def runF {α} (m : Rand.RandM α) (ds : Rng) : Except Outcome (α × Rng) :=
   | .error _ => .error .stuck
 
 /-- a networkx generator (vocabulary `nx`) on the stream -/
-def runNx {α} (m : List Nx.NxDraw → Nx.NxOut α) (ds : Rng) : Except Outcome (α × Rng) :=
+def runNx {α} (m : List Nx.NxDraw → Nx.NxOut α) (ds : Stream) : Except Outcome (α × Stream) :=
   let p := nxPre ds
   match m p with
   | .ok a rest => .ok (a, ds.drop (p.length - rest.length))
@@ -178,7 +187,7 @@ def simpleOfNx : Except Err SimpleG → Except Outcome (Option GCli.CG)
   | .error _ => .error (.unsupported "from_networkx refuses the graph")
 
 /-- `Graph.from_networkx(networkx.gnm_random_graph(n, m))` exactly when `obtain_gnm` reaches it -/
-def extGnm (n m : Int) (ds : Rng) : Except Outcome (Option GCli.CG × Rng) :=
+def extGnm (n m : Int) (ds : Stream) : Except Outcome (Option GCli.CG × Stream) :=
   if GCli.gnmGuard n m then
     match runNx (Nx.gnmSimple n.toNat m.toNat) ds with
     | .error o => .error o
@@ -186,7 +195,7 @@ def extGnm (n m : Int) (ds : Rng) : Except Outcome (Option GCli.CG × Rng) :=
   else .ok (none, ds)
 
 /-- `Graph.normalize(networkx.random_regular_graph(d, n))` exactly when `obtain_gnd` reaches it and networkx accepts -/
-def extGnd (n d : Int) (ds : Rng) : Except Outcome (Option GCli.CG × Rng) :=
+def extGnd (n d : Int) (ds : Stream) : Except Outcome (Option GCli.CG × Stream) :=
   if GCli.gndGuard n d && !GCli.gndOdd n d && GCli.nxRegularPre d n then
     match runNx (Nx.gndSimple n.toNat d.toNat) ds with
     | .error o => .error o
@@ -196,10 +205,10 @@ def extGnd (n d : Int) (ds : Rng) : Except Outcome (Option GCli.CG × Rng) :=
 
 /-- the third-party generator a specification calls, run on the stream — exactly when `obtain_*` reaches it; `none`
 otherwise -/
-def specExt (w : World) (p : GSpec.Parsed) (ds : Rng) : Except Outcome (Option GCli.CG × Rng) :=
+def specExt (w : World) (p : GSpec.Parsed) (ds : Stream) : Except Outcome (Option GCli.CG × Stream) :=
   match p.graphtype, p.construction, p.args with
   | "simple", some "gnp", some (some as) =>
-    let go (a pt : String) (t : Int) : Except Outcome (Option GCli.CG × Rng) :=
+    let go (a pt : String) (t : Int) : Except Outcome (Option GCli.CG × Stream) :=
       match (w.gw.interp a).int?, (w.gw.interp pt).flt? with
       | some n, some (pn, pd) =>
         if GCli.gnpGuard n pn pd t && t == 1 then
@@ -296,8 +305,8 @@ def graphName (w : World) (p : GSpec.Parsed) : Option String := do
 
 /-- `make_graph_from_spec(ty, toks)` inside an `Obtain…Graph.__call__`, on the stream: the graph, its name, what is left
 of the stream -/
-def makeGraph (w : World) (ty : String) (toks : List String) (ds : Rng) :
-    Except Outcome ((GCli.CG × String) × Rng) :=
+def makeGraph (w : World) (ty : String) (toks : List String) (ds : Stream) :
+    Except Outcome ((GCli.CG × String) × Stream) :=
   match GSpec.parseGraphArgument ty toks w.gw.dot with
   | .error e => .error (ofErr e)                     -- `except ValueError: parser.error(...)`
   | .ok p =>
@@ -380,7 +389,7 @@ def addDescription (h : Hdr) (text : String) : Hdr := h ++ [(Shuffle.tkey (Shuff
 def ofCNF (G : CNF) : Formula := ⟨G.nvars, G.clauses.map .clause⟩
 
 /-- `argdict.transformation.transform_cnf(cnf, argdict)` on the stream -/
-def applyT (F : CNF) (h : Hdr) (ds : Rng) : TCall → Except Outcome ((CNF × Hdr) × Rng)
+def applyT (F : CNF) (h : Hdr) (ds : Stream) : TCall → Except Outcome ((CNF × Hdr) × Stream)
   | .shuffle pa va ca =>
     let p := shPre ds
     match Shuffle.run F pa va ca p with
@@ -408,7 +417,7 @@ def applyT (F : CNF) (h : Hdr) (ds : Rng) : TCall → Except Outcome ((CNF × Hd
     | .error e => .error (ofErr e)
     | .ok G => .ok ((G, addDescription h (Header.descr .flip)), ds)
 
-def applyChainT (F : CNF) (h : Hdr) (ds : Rng) : List TCall → Except Outcome ((CNF × Hdr) × Rng)
+def applyChainT (F : CNF) (h : Hdr) (ds : Stream) : List TCall → Except Outcome ((CNF × Hdr) × Stream)
   | [] => .ok ((F, h), ds)
   | t :: ts =>
     match applyT F h ds t with
@@ -450,26 +459,24 @@ structure Parsed where
   call : Call
   chain : List TCall
   graph : Option (GCli.CG × String)
-  rng : Rng
+  rng : Stream
   used : Nat
 
 /-- the sub-command: its words are converted, its graph argument is materialised; then the chunks after each `-T` -/
-def parseRest (w : World) (t : ToolPhases) (top : Top) (tcmds : List (List String)) (rng1 : Rng) : Except Outcome Parsed :=
+def parseRest (w : World) (top : Top) (tcmds : List (List String)) (rng1 : Stream) : Except Outcome Parsed :=
   match top.sub with
   | [] => .error .cliError
   | sub :: words =>
     match dispatchNamed "formula" sub words with
     | .error e => .error (ofCliErr e)
     | .ok call =>
-      let g : Except Outcome (Option (GCli.CG × String) × Rng) :=
+      let g : Except Outcome (Option (GCli.CG × String) × Stream) :=
         match (if tseitinShortcut sub words then none else graphToks call) with
         | none => .ok (none, rng1)
         | some (ty, toks) => (makeGraph w ty toks rng1).map (fun r => (some r.1, r.2))
       match g with
       | .error o => .error o
       | .ok (gr, rng2) =>
-        if t.tool != "cnfgen" && !tcmds.isEmpty then .error .cliError     -- pbgen: "'-T' in command line unsupported"
-        else
         match parseChain tcmds with
         | .error o => .error o
         | .ok chain => .ok ⟨call, chain, gr, rng2, rng1.length - rng2.length⟩
@@ -478,15 +485,17 @@ def parseRest (w : World) (t : ToolPhases) (top : Top) (tcmds : List (List Strin
 at once when the table says so), then the sub-command, then the transformations -/
 def stepParse (σ : Int → Rng) (w : World) (t : ToolPhases) (argv : List String) (st : RState) :
     Except Outcome RState :=
+  -- pbgen's `parse_command_line` first: "'-T' in command line unsupported by 'pbgen'"
+  if t.tool != "cnfgen" && argv.contains "-T" then .error .cliError else
   match parseTop (argv.length + 1) (parseCommandLine argv).1 {} with
   | .error o => .error o
   | .ok top =>
     let rng1 : Rng := match t.seedOpt, top.seed with
       | some o, some s => if o.seeds then σ s else st.rng
       | _, _ => st.rng
-    match parseRest w t top (parseCommandLine argv).2 rng1 with
+    match parseRest w top (parseCommandLine argv).2 rng1.parse with
     | .error o => .error o
-    | .ok p => .ok { st with rng := p.rng, top := top, call := some p.call, chain := p.chain, graph := p.graph,
+    | .ok p => .ok { st with rng := { rng1 with parse := p.rng }, top := top, call := some p.call, chain := p.chain, graph := p.graph,
                              usedGraph := st.usedGraph + p.used }
 
 /-- `[random.randint(0, 1) for _ in range(n)]` -/
@@ -528,8 +537,8 @@ def ofFam (r : Except Err Formula) : Except Outcome Formula :=
   | .error e => .error (ofErr e)
 
 /-- what `build_formula` computes: the formula, its description, the generator afterwards -/
-def buildCore (w : World) (top : Top) (c : Call) (graph : Option (GCli.CG × String)) (rng : Rng) :
-    Except Outcome ((Formula × String) × Rng) :=
+def buildCore (w : World) (top : Top) (c : Call) (graph : Option (GCli.CG × String)) (rng : Stream) :
+    Except Outcome ((Formula × String) × Stream) :=
   let plant := c.kw.any (fun p => p.1 == "planted_assignments")
   if c.fn == "RandomKCNF" then
     match intArgs c with
@@ -630,20 +639,20 @@ def stepEv (σ : Int → Rng) (w : World) (t : ToolPhases) (argv : List String) 
     match st.call with
     | none => .error (.unsupported "build before parse")
     | some c =>
-      match buildCore w st.top c st.graph st.rng with
+      match buildCore w st.top c st.graph st.rng.later with
       | .error o => .error o
       | .ok ((F, d), rng') =>
-        .ok { st with rng := rng', usedFormula := st.usedFormula + (st.rng.length - rng'.length),
+        .ok { st with rng := { st.rng with later := rng' }, usedFormula := st.usedFormula + (st.rng.later.length - rng'.length),
                       formula := some (F, ("description", d) :: w.baseHeader) }
   | .transforms _ =>
     match st.chain, st.formula with
     | [], _ => .ok st                                -- no `-T`: the loop body never runs
     | _ :: _, none => .error (.unsupported "transformations before build")
     | ts, some (F, h) =>
-      match applyChainT F.toCNF h st.rng ts with
+      match applyChainT F.toCNF h st.rng.later ts with
       | .error o => .error o
       | .ok ((G, h'), rng') =>
-        .ok { st with rng := rng', usedFormula := st.usedFormula + (st.rng.length - rng'.length),
+        .ok { st with rng := { st.rng with later := rng' }, usedFormula := st.usedFormula + (st.rng.later.length - rng'.length),
                       formula := some (ofCNF G, h') }
   | .headerSeed gd _ =>
     if guardFires (seedTy t) gd (argsSeed t st.top.seed) then
